@@ -350,6 +350,9 @@ class EngineB:
                     ob.detail += f"; {len(I.loop_obligations)} loop-invariant obligations (entry / preservation) discharged"
         self.rep.extra.setdefault("paths_explored", 0)
         self.rep.extra["paths_explored"] += npaths
+        for qn, (where, h) in I.inlined.items():
+            if qn != c.qualname and qn not in self.rep.functions:
+                self.rep.functions[qn] = {"where": where, "hash": h, "how": "real source interpreted inside the proof of a caller"}
         if I.loop_obligations:
             lo = Obligation(id=f"{base_id}.loop-invariant", props=list(case.props or [prop_id]), unit=c.qualname, backend="z3",
                             formula="the inductive loop invariant(s) and ghost obligations of the contract hold on entry and "
